@@ -1,5 +1,5 @@
 """C03 frozen inputs are never evicted; clean-up keeps its bookkeeping consistent (E2, z3)."""
-from props import cachevc
+from props import cachevc, timevc
 
 LEVEL = 'proof'
 
@@ -12,3 +12,4 @@ def run(R):
     cachevc.cleanup_obligations(R)
     cachevc.getitem_obligations(R)
     cachevc.freeze_obligations(R)
+    timevc.timestep_freeze_obligations(R)
